@@ -577,6 +577,8 @@ def run(seed, tier, driver):
             whole = bytes.fromhex(io['hex'])
             body = whole[2:] if len(whole) >= 242 else whole[1:]
             fs_hex.append((body, whole))
+            if whole:
+                ALL_RULE_WIRES.append(whole)
         has_ne = any(t in FS_NOT_ENCODED for t, _ in rule)
         if canonical and rule_body_len(rule) < 4096 and \
                 (rule_ok(rule) or (has_ne and rule_ok([p for p in rule if p[0] not in FS_NOT_ENCODED] or [[5, '=1']]))):
@@ -756,6 +758,7 @@ def run(seed, tier, driver):
 
     # ---------------- C. compositionality oracle on the real code (C15)
     compose(res, r, good_routes, good_rules, 300 if quick else 10000)
+    compose_literal(res, r, 400 if quick else 10000)
     return res
 
 
@@ -792,6 +795,45 @@ def _canonical_ops(v):
         if not num.isdigit() or not num.isascii() or (len(num) > 1 and num[0] == '0') or int(num) >= 2 ** 64:
             return False
     return True
+
+
+ALL_RULE_WIRES = []
+
+
+def compose_literal(res, r, n):
+    """C15 read literally, on EVERY flow specification the constructor wrote - not only on those the code under test
+    decodes back correctly (round 10: a decoder that misreads rules of 240..255 octets dropped exactly those rules from
+    the pool of `compose`, which is filtered by the round trip): when a and b each decode, a || b decodes to the
+    concatenation of the two results, in both orders"""
+    wires = sorted(set(ALL_RULE_WIRES), key=lambda w: (len(w), w))
+    if not wires:
+        return
+    edge = [w for w in wires if 236 <= len(w) <= 262 or len(w) >= 4000]
+    single = {}
+
+    def dec(w):
+        if w not in single:
+            single[w] = I.mpunreach_parse(b'\x00\x01\x85' + w)
+        return single[w]
+    for i in range(n):
+        a = r.choice(edge) if edge and i % 3 == 0 else r.choice(wires)
+        b = r.choice(edge) if edge and i % 7 == 0 else r.choice(wires)
+        for x, y in ((a, b), (b, a)):
+            if len(x) + len(y) > 4000:
+                continue
+            dx, dy = dec(x), dec(y)
+            res.stats.case(('compose-fs-literal', x.hex()[:64], y.hex()[:64]))
+            res.stats.hit('compose_flowspec_literal' + ('_edge' if (x in edge or y in edge) else ''))
+            if 'ok' not in dx or 'ok' not in dy:
+                res.stats.hit('compose_flowspec_literal_part_fails')
+                continue
+            got = I.mpunreach_parse(b'\x00\x01\x85' + x + y)
+            exp = {'ok': {'afi_safi': [1, 133], 'withdraw': dx['ok']['withdraw'] + dy['ok']['withdraw']}}
+            if got != exp:
+                res.fail('C15', 'flowspec rules: decode(a||b) != decode(a)+decode(b) (each part decoded by the code itself)',
+                         {'kind': 'compose_fs_literal', 'a': x.hex(), 'b': y.hex(), 'decoded_a': dx, 'decoded_b': dy, 'decoded': got},
+                         key='compose-flowspec-rules')
+    del ALL_RULE_WIRES[:]
 
 
 def compose(res, r, good_routes, good_rules, n):
